@@ -92,7 +92,10 @@ func outputColumns(qc *QueryCatalog, node ast.Node) ([]*Column, error) {
 					name = *res.Name
 				}
 				// TODO Validate column names
-				col := toColumn(tc.TypeName)
+				col, err := toColumn(tc.TypeName)
+				if err != nil {
+					return nil, err
+				}
 				col.Name = name
 				cols = append(cols, col)
 			} else {
@@ -191,7 +194,10 @@ func outputColumns(qc *QueryCatalog, node ast.Node) ([]*Column, error) {
 				name = *res.Name
 			}
 			// TODO Validate column names
-			col := toColumn(n.TypeName)
+			col, err := toColumn(n.TypeName)
+			if err != nil {
+				return nil, err
+			}
 			col.Name = name
 			cols = append(cols, col)
 
